@@ -64,6 +64,9 @@ func (m *Mutex) Unlock() {
 	}
 	m.locked = false
 	m.w.WakeAll(s)
+	// A release is a place where the OS may preempt: whatever the goroutine
+	// does next without holding the lock can interleave with the new owner.
+	simrt.Yield("Mutex.Unlock")
 }
 
 // RWMutex is a simulated sync.RWMutex (writer preference is not modelled; any
@@ -100,6 +103,7 @@ func (m *RWMutex) Unlock() {
 	}
 	m.writer = false
 	m.w.WakeAll(s)
+	simrt.Yield("RWMutex.Unlock")
 }
 
 func (m *RWMutex) RLock() {
@@ -127,6 +131,7 @@ func (m *RWMutex) RUnlock() {
 	}
 	m.readers--
 	m.w.WakeAll(s)
+	simrt.Yield("RWMutex.RUnlock")
 }
 
 // RLocker returns a Locker for the read side.
